@@ -129,6 +129,7 @@ func vShapedE0(s SessionCrypter, good bool) (e0 cose.Encrypt0[cbor.RawBytes, []b
 
 // (a)(f) part 1: COSE_Encrypt0 (tag 16) and unknown tags with arbitrary shape-bounded content.
 func VerifC05_DecryptEnc0Shapes() {
+	verif.Expect("accepted")
 	verif.NoPanic()
 	verif.Bound("C05af enc0", "7 suites; outer tag 16 or 18; alg header: suite's / absent / one of 6 other ids / text, in protected or unprotected bucket; IV absent or length {0,12,16,17}; ciphertext null or length {0,1,15,16,17,32}; contents symbolic")
 	id := vCipherIDs[verif.Choose("suite", len(vCipherIDs))]
@@ -157,6 +158,7 @@ func VerifC05_DecryptEnc0Shapes() {
 
 // (a)(f) part 2: COSE_Mac0 (tag 17) around a well-shaped COSE_Encrypt0.
 func VerifC05_DecryptMac0Shapes() {
+	verif.Expect("accepted")
 	verif.NoPanic()
 	verif.Bound("C05af mac0", "7 suites; outer tag 17; MAC alg header: suite's / absent / one of 6 other ids; tag value length {0,32,48}; payload null or a well-shaped COSE_Encrypt0 with symbolic IV and ciphertext")
 	id := vCipherIDs[verif.Choose("suite", len(vCipherIDs))]
